@@ -175,14 +175,20 @@ class Model:
                     try:
                         ok = bool(self.eval(c))
                     except EvalError:
-                        self.fail(x)
+                        # Rec 5.9.1: an erroneous conditional is treated as false, error.execution is raised,
+                        # execution of the block continues
+                        self.iq.append('error.execution')
+                        self.emit('err', x.vid)
+                        ok = False
                 if ok:
                     for y in body:
                         self.exec_one(y)
                     break
         elif k == 'fault':
-            if x.which in ('send_badtype', 'send_badtarget'):
-                self.fail(x, 'error.execution')
+            if x.which == 'if_badcond':
+                self.iq.append('error.execution')
+                self.emit('err', x.vid)
+                return
             self.fail(x)
         else:
             raise ValueError(k)
